@@ -120,7 +120,7 @@ Fixpoint levels_ok (f : pyfunc) (fasync : bool) (s : signature) (below : nat)
   match steps with
   | [] => match levels, fail with [], None => Some s | _, _ => None end
   | st :: steps' =>
-      match spec_wraps s (s_injected st) (s_expected st) with
+      match spec_wraps_opt (o_inject_to_varkw (s_options st)) s (s_injected st) (s_expected st) with
       | Raise _ =>
           match levels, fail with
           | [], Some ValueError | [], Some (OtherExn 1) => Some s
